@@ -68,7 +68,7 @@ fn main() {
     }
 
     let max_depth: usize = std::env::var("C14_DEPTH").ok().and_then(|s| s.parse().ok()).unwrap_or(run.tier.pick(2, 8));
-    let roots = [Root::Admin, Root::Loopback, Root::AdminAB];
+    let roots = [Root::Admin, Root::Loopback, Root::AdminAB, Root::AdminA];
     let select = Select { only_phase: None, lite: run.tier == vcore::Tier::Quick };
     let threads = util::n_threads();
 
@@ -191,11 +191,11 @@ fn main() {
     }
     run.rule(
         "BFS over control-plane event histories {create A/B with/without key, set_api_key, remove_api_key, close, open, connect, restart} \
-         from three roots (admin key; no admin key; admin key + A and B with keys), states merged by canonical control state \
+         from four roots (admin key; no admin key; admin key + A and B with keys; admin key + A with the only key), states merged by canonical control state \
          (per database: absent/open-warm/open-cold/closed, bound token, tokens issued). At every state the full matrix \
          GET / + POST / + POST /{11 target spellings} x every method of both scraped tables and 3 unknown names x {minimal, malformed params} \
          + 6 body probes x {CBOR, JSON} x every principal (none, 3 garbage, 3 malformed headers, admin, every issued token and one unissued per database, \
-         hash of the bound token; quick tier: 1 garbage and 1 malformed header, and minimal-params bodies + probes only on the two path-level targets) is sent through build_router(..).oneshot on fresh replays of the history. distinct = (access class, principal kind, \
+         hash of the bound token; plus, with a 6-body subset, constructed near misses of every existing key (admin, bound, revoked): garbage tokens whose SHA3-256 digest agrees with the key's digest in the last byte / first byte / first 2 / last 2 bytes, the key minus its last character, the key plus one character, the hex of its digest; quick tier: 1 garbage and 1 malformed header, and minimal-params bodies + probes only on the two path-level targets) is sent through build_router(..).oneshot on fresh replays of the history. distinct = (access class, principal kind, \
          target class incl. database status/binding, encoding, body, variant)",
     );
     run.assume("the object store is CtlStore over InMemory; one request at a time (no concurrent requests); response headers, status and body are the whole observable (no timing)");
